@@ -542,6 +542,8 @@ async fn s_facts(c: Arc<Certs>) -> Out {
         last = r3.read_chunk(usize::MAX, true).await;
     }
     out.fact("read_chunk after the peer's reset(0x10c) -> Reset(0x10c)", matches!(&last, Err(quinn::ReadError::Reset(c)) if c.into_inner() == 0x10c), format!("{last:?}"));
+    let again = r3.read_chunk(usize::MAX, true).await;
+    out.fact("read_chunk once more after it reported Reset -> Ok(None) (quinn forgets the reset)", matches!(&again, Ok(None)), format!("{again:?}"));
     // (6) after the peer's close(code), accept/open/read report ApplicationClosed(code)
     p.server.close(VarInt::from_u32(0x101), b"x");
     tokio::time::sleep(Duration::from_millis(50)).await;
@@ -652,6 +654,112 @@ async fn s_stop_then_finish(c: Arc<Certs>, grease: bool) -> Out {
     out
 }
 
+/// S7: real h3 server + real adapter + real Quinn. The peer resets one request in the middle of a DATA frame; the
+/// handler gets the stream error and calls recv_data() once more (a retry). The reset is stream-scoped: the
+/// connection must stay usable and a second request must complete.
+async fn s_reset_then_read_again(c: Arc<Certs>) -> Out {
+    let mut out = Out::default();
+    out.runs += 1;
+    let p = pair(&c, Win { stream: None, conn: None, idle_ms: None }).await;
+    let mut b = h3::server::builder();
+    b.send_grease(false);
+    let raw = p.client.clone();
+    const REQ: &[u8] = &[0x01, 0x08, 0x00, 0x00, 0xd1, 0xd7, 0xc1, 0x50, 0x01, b'a'];
+    let peer = tokio::spawn(async move {
+        let mut ctrl = raw.open_uni().await.expect("ctrl");
+        ctrl.write_all(&[0x00, 0x04, 0x00]).await.expect("settings");
+        let (mut s0, _r0) = raw.open_bi().await.expect("bi 0");
+        s0.write_all(REQ).await.expect("req 0");
+        // DATA frame announcing 10 bytes, 4 of them sent, then RESET
+        s0.write_all(&[0x00, 0x0a, 1, 2, 3, 4]).await.expect("partial data");
+        tokio::time::sleep(Duration::from_millis(100)).await;
+        s0.reset(VarInt::from_u32(0x10c)).expect("reset");
+        tokio::time::sleep(Duration::from_millis(300)).await;
+        let second = async {
+            let (mut s4, mut r4) = raw.open_bi().await.map_err(|e| format!("open: {e}"))?;
+            s4.write_all(REQ).await.map_err(|e| format!("write: {e}"))?;
+            s4.finish().map_err(|e| format!("finish: {e}"))?;
+            let body = r4.read_to_end(1 << 20).await.map_err(|e| format!("read: {e}"))?;
+            Ok::<usize, String>(body.len())
+        }
+        .await;
+        let reason = raw.close_reason();
+        (second, reason, ctrl, _r0)
+    });
+    let conn = h3_quinn::Connection::new(p.server.clone());
+    let mut h3c: h3::server::Connection<h3_quinn::Connection, Bytes> = b.build(conn).await.expect("h3 server setup");
+    let mut first = String::new();
+    let mut driver_end = String::new();
+    let mut n = 0;
+    loop {
+        match tokio::time::timeout(Duration::from_millis(1500), h3c.accept()).await {
+            Ok(Ok(Some(resolver))) => {
+                n += 1;
+                let is_first = n == 1;
+                let r = async {
+                    let (_req, mut st) = resolver.resolve_request().await?;
+                    if is_first {
+                        let mut log = Vec::new();
+                        for _ in 0..8 {
+                            match st.recv_data().await {
+                                Ok(Some(_)) => log.push("data".to_string()),
+                                Ok(None) => {
+                                    log.push("none".to_string());
+                                    break;
+                                }
+                                Err(e) => {
+                                    log.push(format!("error: {e}"));
+                                    // once more
+                                    log.push(match st.recv_data().await {
+                                        Ok(Some(_)) => "again: data".to_string(),
+                                        Ok(None) => "again: none".to_string(),
+                                        Err(e) => format!("again: error: {e}"),
+                                    });
+                                    break;
+                                }
+                            }
+                        }
+                        return Ok::<String, h3::error::StreamError>(format!("{log:?}"));
+                    }
+                    st.send_response(http::Response::builder().status(200).body(()).unwrap()).await?;
+                    st.send_data(Bytes::from_static(b"pong")).await?;
+                    st.finish().await?;
+                    Ok("ok".to_string())
+                }
+                .await;
+                if is_first {
+                    first = match r {
+                        Ok(s) => s,
+                        Err(e) => format!("error: {e}"),
+                    };
+                }
+            }
+            Ok(Ok(None)) => {
+                driver_end = "none".into();
+                break;
+            }
+            Ok(Err(e)) => {
+                driver_end = format!("{e}");
+                break;
+            }
+            Err(_) => break,
+        }
+        if n >= 2 {
+            break;
+        }
+    }
+    let (second, reason, _ctrl, _r0) = peer.await.expect("peer task");
+    let ok = matches!(second, Ok(k) if k > 0) && reason.is_none() && driver_end.is_empty();
+    if !ok {
+        out.viol(
+            "C17:real:reset-then-one-more-read-kills-the-connection",
+            format!("first request: {first}; accept() ended with {driver_end:?}; the peer's second request: {second:?}; connection close reason seen by the peer: {reason:?}"),
+        );
+    }
+    p.client.close(VarInt::from_u32(0), b"done");
+    out
+}
+
 async fn run_all(thorough: bool) -> Out {
     let c = Arc::new(certs());
     let mut out = Out::default();
@@ -712,6 +820,7 @@ async fn run_all(thorough: bool) -> Out {
     for grease in [true, false] {
         guarded(&mut out, format!("h3 server: STOP_SENDING then finish(), grease={grease}"), s_stop_then_finish(c.clone(), grease)).await;
     }
+    guarded(&mut out, "h3 server: RESET mid-DATA then recv_data() again".into(), s_reset_then_read_again(c.clone())).await;
     out.scenarios = vec![json!({"windows": windows.iter().map(|w| format!("{:?}/{:?}", w.stream, w.conn)).collect::<Vec<_>>(), "frame_sequences": small, "codes": codes.iter().map(|c| format!("{c:#x}")).collect::<Vec<_>>()})];
     out
 }
